@@ -11,8 +11,7 @@ if [ -x props/$lc/check.sh ]; then
   exec props/$lc/check.sh "$tier" "$@"
 fi
 mkdir -p bin
-ov=""; [ -n "${VERIF_OVERLAY:-}" ] && ov="-overlay $VERIF_OVERLAY"
-if ! go build $ov -o bin/$lc ./props/$lc 2>bin/$lc.buildlog; then
+if ! go build $VERIF_MODFLAG -o bin/$lc ./props/$lc 2>bin/$lc.buildlog; then
   cat bin/$lc.buildlog >&2
   echo "BROKEN: build of check $prop failed" >&2
   exit 2
